@@ -193,6 +193,33 @@ func TestC02Corpus(t *testing.T) {
 			t.Fatalf("VIOLATION-CANDIDATE property=C02 check=C02fresh rule=%s: %s", f.Rule, f.Detail)
 		}
 	}
+	// thorough: the same corpus through the real server process (one long-lived server; byte equality of 200 bodies)
+	if os.Getenv("VERIF_TIER") == "thorough" && k == 0 && os.Getenv("VERIF_SERVER_BIN") != "" {
+		if err := theServer.ensure(); err != nil {
+			t.Fatalf("cannot start the server: %v", err)
+		}
+		for i, e := range corpus {
+			if i%4 != 0 {
+				continue
+			}
+			resp, err := theServer.post([]byte(e.Req))
+			c := C02FreshCase{Req: e.Req, Expected: e.Out}
+			var f *Fail
+			switch {
+			case err != nil:
+				f = failf("server-answers", "no HTTP response: %v", err)
+			case e.Out.OK && (resp.Code != 200 || resp.Body != e.Out.Body):
+				f = failf("http-byte-identical", "in-process answer %s\n HTTP answer %d %s", e.Out.Body, resp.Code, resp.Body)
+			case !e.Out.OK && resp.Code != 400:
+				f = failf("http-same-verdict", "rejected in-process (%s) but HTTP status %d", e.Out.Err, resp.Code)
+			}
+			if f != nil {
+				writeReplay("C02", "C02fresh", c, f)
+				t.Fatalf("VIOLATION-CANDIDATE property=C02 check=C02fresh rule=%s: %s", f.Rule, f.Detail)
+			}
+			st.inc("C02:http-server-cases")
+		}
+	}
 	st.add("C02:fresh-process-cases", int64(n))
 	fmt.Printf("C02 corpus process %d: %d cases identical\n", k, n)
 }
